@@ -87,17 +87,16 @@ REGISTRY = {
     },
     "C11": {
         "corr": "C11",
-        "classes": {1: "F10"},
         "trusted": [
             "modelled: BinaryStartReceiver::select (decision list verbatim), SideReceiver (cache, cache_pointer, counters), process_side, and Start::next on top; each input channel is a FIFO queue, deliveries are followed by a drain",
-            "not modelled: receive time-outs (a timed-out first-message receive clears first_message: noted in DESIGN as a timing variant of F10), the flume select fairness (the driver keeps at most one batch in flight)",
+            "not modelled: receive time-outs (with the F10 fix a timed-out first-message receive no longer clears first_message), the flume select fairness (the driver keeps at most one batch in flight)",
         ],
         "assumptions": [
-            "delivery sequences are consumption orders (every delivered batch is readable by the operator when delivered); proved theorem: side input on the left, loop side with one replica; the symmetric case (cache on the right) is covered by the correspondence only",
+            "delivery sequences are consumption orders (every delivered batch is readable by the operator when delivered); proved theorem: side input on the left; the symmetric case (cache on the right) is covered by the correspondence only",
         ],
-        "level_text": "Proof: the two-input Start with a cached side is modelled verbatim; for every number of side-input replicas, every batching and every interleaving with the loop side's first round, and any number of rounds, the model's output satisfies the replay predicate (theorem C11_replay, loop side with one replica); with two loop-side replicas the statement is refuted by a concrete history (known finding F10). Tied to the code by driving the real Start::multiple with explicit delivery orders and comparing inside Coq.",
-        "level_note": "Trusted: Coq kernel/vm_compute, hand-written model (checked by correspondence), harness pacing (one batch in flight), flume FIFO. Known finding F10 is reported only when the faithful model reproduces it exactly. No axioms.",
-        "explanation": "C11_replay proved for all shapes with one loop replica; F10 witness for two.",
+        "level_text": "Proof: the two-input Start with a cached side is modelled verbatim; for every number of side-input replicas and of loop-side replicas, every batching, every interleaving of the side input with the loop side's first round and of the loop replicas within every later round, any number of rounds and any order of the final Terminates, the model's output satisfies the replay predicate (theorem C11_replay_general). The pinned tree violated it with >= 2 loop-side replicas (F10), repaired by a fix: commit. Tied to the code by driving the real Start::multiple with explicit delivery orders and comparing inside Coq.",
+        "level_note": "Trusted: Coq kernel/vm_compute, hand-written model (checked by correspondence), harness pacing (one batch in flight), flume FIFO. No axioms.",
+        "explanation": "C11_replay_general proved for all shapes; F10 fixed.",
     },
     "C13": {
         "corr": "C13",
@@ -231,5 +230,31 @@ REGISTRY = {
         "level_text": "Proof: replay and iterate loops over arbitrarily distributed bodies compute exactly the sequential fixed point — same state sequence, same stop round, same final elements — including nested loops (theorems C10_replay, C10_iterate, C10_nested_restarts). Tied to the code by running loop jobs whose bodies add the loop state to every value (a stale or too-new state changes the sink) on local and multi-host deployments. Partial: which state a replica reads is argued at protocol-model level; Condvar/Barrier are trusted.",
         "level_note": "Trusted: Coq kernel/vm_compute, hand-written semantics, harness, OS synchronisation primitives. No axioms.",
         "explanation": "C10_* proved; loop jobs run on the real engine.",
+    },
+    "C18": {
+        "corr": "C18",
+        "classes": {1: "F9", 2: "F11"},
+        "harness_timeout": 3000,
+        "trusted": [
+            "modelled: End + Batcher flush points (FlushAndRestart, FlushBatch, Terminate), the receive part of Start::next with adaptive batching (already_timed_out), ChannelSource::next (MAX_RETRY polls, one FlushBatch, blocking recv), linear pipelines of k block boundaries",
+            "observed, not proved: the real-time bound (k x max_delay + processing): the timing part of the check only flags data that is withheld (bound 20 x delay x (depth+1) + 2 s)",
+            "noted while modelling: an Adaptive Batcher checks its elapsed time only on its own enqueue, so under CONTINUING input to other replicas a lone element can wait for its batch to fill; outside the property's no-further-input clause",
+        ],
+        "assumptions": ["adaptive batching for the delay statements; input stops but the sender stays open"],
+        "level_text": "Proof: every buffered element is delivered at the latest at the end of its iteration or when idleness is signalled, for every batch mode, strategy and number of downstream blocks; with adaptive batching neither a block input nor the channel source blocks indefinitely before having emitted FlushBatch since the last arrival; in a k-boundary pipeline quiescence implies everything was delivered in order with at most one timed wait per boundary. Tied to the code by whole jobs under all six batch modes (results equal the sequential meaning), by the real End driven with FlushBatch / round ends, and by a timing probe on a real channel-source pipeline. Partial: the wall-clock bound is observed.",
+        "level_note": "Trusted: Coq kernel/vm_compute, hand-written models (End checked by correspondence; idle machines read off the code), harness, OS timers. No axioms.",
+        "explanation": "C18_* proved; batch-mode independence and flushes checked on the engine.",
+    },
+    "C20": {
+        "corr": "C20",
+        "harness_timeout": 3000,
+        "trusted": [
+            "modelled: crash propagation over an acyclic execution graph with per-link Terminate flags and shared sender handles (Model/Crash.v), abstracting data; fairness = maximality of executions",
+            "trusted: panic unwinding, drop of channel endpoints, JoinHandle::join, TCP teardown between hosts",
+        ],
+        "assumptions": ["acyclic jobs; the panic happens in user code before the replica delivered Terminate; reading of the property: sinks downstream of the failed replica never publish (a sink in an independent component may complete while execute_blocking still fails on the affected hosts)"],
+        "level_text": "Proof: in every maximal execution after a user panic in replica r, every replica is Done or Crashed (nobody blocks forever), everything downstream of r is Crashed, no downstream sink ever published, and every host running r or anything downstream fails; executions are finite. Tied to the code by running random acyclic jobs on the real engine with a user function that panics on a data-dependent element, on local and multi-host deployments, observing per host whether execute_blocking failed and whether the sink handle holds a result. Partial: unwinding/join/socket teardown are Rust's and the OS's.",
+        "level_note": "Trusted: Coq kernel, abstract crash model (tied by whole-job observations only), harness. No axioms.",
+        "explanation": "C20_fail_stop proved on the crash model; injected panics on the engine.",
     },
 }
